@@ -58,13 +58,13 @@ func zzMachineryValue(field string) any {
 // and its XR.
 //
 //gosym:harness
-//gosym:cover bound-existing created-new reserved-label manual automatic manual-pin
+//gosym:cover bound-existing created-new reserved-label manual automatic manual-pin manual-pin-first-sync policy-edited
 func HarnessC07SyncSSA() { zzC07Sync(true) }
 
 // HarnessC07SyncCSA: the same for the client-side (merge based) syncer.
 //
 //gosym:harness
-//gosym:cover bound-existing created-new reserved-label manual automatic claim-without-status manual-pin
+//gosym:cover bound-existing created-new reserved-label manual automatic claim-without-status manual-pin manual-pin-first-sync policy-edited
 func HarnessC07SyncCSA() { zzC07Sync(false) }
 
 func zzC07Sync(ssa bool) {
@@ -167,10 +167,17 @@ func zzC07Sync(ssa bool) {
 		if xrHasRevRef {
 			xspec["compositionRevisionRef"] = map[string]any{"name": "rev-from-xr"}
 		}
-		if policy == 1 {
+		// the XR carries the claim's policy as of the previous sync: the same, or -
+		// when the claim was edited since - the other one
+		xpolicy := policy
+		if policy != 0 && zz.Bool("xr.policyFromBeforeAnEdit") {
+			xpolicy = 3 - policy
+			zz.Cover("policy-edited")
+		}
+		if xpolicy == 1 {
 			xspec["compositionUpdatePolicy"] = "Manual"
 		}
-		if policy == 2 {
+		if xpolicy == 2 {
 			xspec["compositionUpdatePolicy"] = "Automatic"
 		}
 		xr.Object["spec"] = xspec
@@ -245,9 +252,13 @@ func zzC07Sync(ssa bool) {
 		_, in := xspec["compositionRevisionRef"]
 		zz.Assert("revision-ref-not-propagated-unless-manual", !in)
 	}
-	if policy == 1 && hasRevRef && xrExists {
-		// under the Manual policy the claim's pinned revision is the XR's
+	if policy == 1 && hasRevRef {
+		// under the Manual policy the claim's pinned revision is the XR's: on the
+		// first sync and right after the claim switched to Manual as well
 		zz.Cover("manual-pin")
+		if !xrExists {
+			zz.Cover("manual-pin-first-sync")
+		}
 		zz.Assert("manual-policy-propagates-the-claims-revision-to-the-xr", reflect.DeepEqual(xspec["compositionRevisionRef"], zzMachineryValue("compositionRevisionRef")))
 	}
 	cr, _ := xspec["claimRef"].(map[string]any)
